@@ -99,16 +99,14 @@ def real_input(inp):
 
 
 def _finite_block(ok):
-    """Longest contiguous run of True in the boolean vector ok -> slice (or None)."""
-    best, start = None, None
-    for i, b in enumerate(list(ok) + [False]):
-        if b and start is None:
-            start = i
-        elif not b and start is not None:
-            if best is None or i - start > best[1] - best[0]:
-                best = (start, i)
-            start = None
-    return slice(*best) if best else None
+    """Longest contiguous run of True in the boolean vector ok -> slice (or None); first one on ties."""
+    ok = numpy.asarray(ok, bool)
+    if not ok.any():
+        return None
+    edges = numpy.diff(numpy.concatenate(([0], ok.astype(numpy.int8), [0])))
+    starts, stops = numpy.flatnonzero(edges == 1), numpy.flatnonzero(edges == -1)
+    i = int(numpy.argmax(stops - starts))
+    return slice(int(starts[i]), int(stops[i]))
 
 
 def _fmt(x):
@@ -123,7 +121,8 @@ def build(case):
     kind, degree = case["data"]
     inp, laws, vols, v0 = R.build_input(case["nv"], nq, npm, kind, degree,
                                         wscale=case.get("wscale", 1.0), vscale=case.get("vscale", 1.0),
-                                        acoustic=case.get("acoustic", "mixed"), offset=case.get("offset", 0))
+                                        acoustic=case.get("acoustic", "mixed"), offset=case.get("offset", 0),
+                                        weights=case.get("weights", "unit"))
     v = R.v_grid(case["vkind"], vols, n=case.get("ntv", R.N_GRID))
     return inp, laws, vols, v0, v
 
@@ -139,7 +138,35 @@ def run_interp(case):
         return {"viol": [V(f"c11:{method}:raises:{type(e).__name__}",
                            f"interpolate_modes(method={method!r}, order={order}) on {case['nv']} volumes raised {type(e).__name__}: {str(e)[:160]}")],
                 "nontrivial": False, "outcome": f"raises:{type(e).__name__}"}
-    return evaluate(case, res, laws, vols, v0, v)
+    out = evaluate(case, res, laws, vols, v0, v)
+    if case.get("weights", "unit") != "unit":
+        # weights play no role in the statement: the result must be the unit-weight result, bit for bit
+        plain_u = build(dict(case, weights="unit"))[0]
+        try:
+            with numpy.errstate(all="ignore"):
+                ref = interpolate_modes(real_input(plain_u), v.copy(), method=method, order=order)
+            same = all(numpy.array_equal(numpy.asarray(a), numpy.asarray(b), equal_nan=True) for a, b in zip(res, ref))
+        except Exception as e:
+            same, ref = False, None
+            out["viol"].append(V(f"c11:{method}:raises:{type(e).__name__}", f"unit-weight twin of the case raised {e!r}"))
+        if not same and ref is not None:
+            names = ("omega", "gamma", "V dgamma/dV")
+            diff = []
+            for nm, a, b in zip(names, res, ref):
+                a, b = numpy.asarray(a, float), numpy.asarray(b, float)
+                bad = ~((a == b) | (numpy.isnan(a) & numpy.isnan(b))) if a.shape == b.shape else None
+                if bad is None:
+                    diff.append(f"{nm}: shape {a.shape} vs {b.shape}")
+                elif bad.any():
+                    i = tuple(int(x) for x in numpy.argwhere(bad)[0])
+                    qs = sorted({int(x[1]) for x in numpy.argwhere(bad)})
+                    diff.append(f"{nm} differs at q-point(s) {qs}, e.g. [{i}] = {float(a[i])!r} vs {float(b[i])!r} with unit weights")
+            wts = R.weights_for(case["weights"], case["shape"][0])
+            out["viol"].append(V(f"c11:{method}:depends-on-weights",
+                                 f"method={method} order={order} shape {case['shape']}: with q-point weights {wts if wts is not None else '[] (empty list)'} "
+                                 f"the result is not identical to the unit-weight result: " + "; ".join(diff)))
+            out["outcome"] = out["viol"][0]["sig"]
+    return out
 
 
 def evaluate(case, res, laws, vols, v0, v):
@@ -197,10 +224,11 @@ def evaluate(case, res, laws, vols, v0, v):
         blk = _finite_block(fin & (ws > 0))
         if fin.any() and not (ws[fin] > 0).all():
             add(f"c11:{method}:omega-not-positive", f"slot (q={q}, m={m}): interpolated omega <= 0 (min {_fmt(ws[fin].min())})")
-        if blk is None or blk.stop - blk.start < 5:
+        if not fin.any():
             continue
         checked += 1
         W, G, H = analytic[(q, m)]
+        usable = blk is not None and blk.stop - blk.start >= 5          # the log-based checks need omega > 0
         # (1) exactness
         if exact:
             ew = float(numpy.abs(ws[fin] / W[fin] - 1).max())
@@ -231,9 +259,9 @@ def evaluate(case, res, laws, vols, v0, v):
                         f"{'' if fam == 'power-law' else f' of degree {degree}'}, slot (q={q}, m={m}): max error of {over}; "
                         f"at V={_fmt(v[i])}: omega {float(ws[i])!r} vs analytic {float(W[i])!r}, gamma {float(gs[i])!r} vs {float(G[i])!r}, "
                         f"V dgamma/dV {float(hs[i])!r} vs {float(H[i])!r}")
-        else:
+        elif usable:
             # (4) generic data: the slot must be closest to its own law (inside the sampled range, finite part)
-            sel = fin & inside
+            sel = fin & inside & (ws > 0)
             if sel.sum() >= 5:
                 own = float(numpy.abs(numpy.log(ws[sel]) - numpy.log(W[sel])).max())
                 others = {s2: float(numpy.abs(numpy.log(ws[sel]) - numpy.log(analytic[s2][0][sel])).max())
@@ -243,6 +271,8 @@ def evaluate(case, res, laws, vols, v0, v):
                 if not own < others[s2]:        # nearest-law classification; measured own/other <= 0.39 on a correct tree
                     add(f"c11:{method}:slot-mixing",
                         f"slot (q={q}, m={m}): max |ln w - ln w_law| is {own:.3g} to its own law but {others[s2]:.3g} to the law of slot (q={s2[0]}, m={s2[1]})")
+        if not usable:
+            continue
         # (2) one interpolant: integral identities on the returned arrays
         r1, r2 = R.identity_residuals(v[blk], ws[blk], gs[blk], hs[blk])
         q1, q2 = R.quadrature_bounds(v[blk], gs[blk], hs[blk])      # trapezoid error bound of the oracle itself
@@ -306,7 +336,7 @@ def make_plot_duck(case, calc):
     nq, npm = case["shape"]
     nv = case["nv"]
     method, order, kind, degree = "lsq_poly", 3, "poly", 3        # shipped default interpolator; data it reproduces exactly
-    inp, laws, vols, v0 = R.build_input(nv, nq, npm, kind, degree)
+    inp, laws, vols, v0 = R.build_input(nv, nq, npm, kind, degree, weights=case.get("weights", "unit"))
     v = R.v_grid(case["vkind"], vols, n=case.get("ntv", 201))
     duck = SimpleNamespace(
         qha_input=real_input(inp),
@@ -467,6 +497,7 @@ HIST_SHAPE, HIST_NV, HIST_NTV = [2, 6], 8, 201
 _X = {"nv": HIST_NV, "shape": HIST_SHAPE, "data": ["power", 0], "offset": 0}
 _Y = {"nv": HIST_NV, "shape": HIST_SHAPE, "data": ["power", 0], "offset": 12}            # same shapes, a disjoint set of laws
 _Z = {"nv": 6, "shape": [3, 3], "data": ["power", 0], "offset": 24, "vscale": R.ANG3_PER_BOHR3}
+_W = dict(_X, weights="zero-last")                                                        # X's table listed with a zero weight on the last q-point
 HIST_OPS = OrderedDict([
     # name: (object, content it must hold, vkind, method, order)
     ("X-in-spl3", ("X", _X, "inside", "spline", 3)),
@@ -475,6 +506,7 @@ HIST_OPS = OrderedDict([
     ("Y-ex-spl3", ("Y", _Y, "extended", "spline", 3)),
     ("Z-ex-lsq2", ("Z", _Z, "extended", "lsq_poly", 2)),
     ("X:=Y-ex-spl3", ("X", _Y, "extended", "spline", 3)),        # the SAME object X, frequencies replaced in place by Y's
+    ("W-ex-spl3", ("W", _W, "extended", "spline", 3)),
     ("tmp-tmp-ex-spl3", ("tmp", None, "extended", "spline", 3)),   # two inputs created and released one after the other
 ])
 _TMP = [dict(_X, offset=36), dict(_X, offset=48)]
@@ -604,6 +636,9 @@ def run_case(case):
 
 # =========================================================================== exploration
 
+PLOT_WEIGHTS = ("unit", "zero-first", "zero-last", "empty")
+
+
 def plot_cases(thorough=False):
     out = []
     for shape in ([2, 6], [3, 3]) + (([1, 6],) if thorough else ()):
@@ -611,7 +646,8 @@ def plot_cases(thorough=False):
             for vkind in ("extended", "inside"):
                 for n in (0, 1, 2):
                     for iq in range(shape[0]):
-                        out.append({"part": "plot", "shape": shape, "nv": nv, "vkind": vkind, "n": n, "iq": iq})
+                        for wk in PLOT_WEIGHTS:
+                            out.append({"part": "plot", "shape": shape, "nv": nv, "vkind": vkind, "n": n, "iq": iq, "weights": wk})
     return out
 
 
@@ -634,13 +670,16 @@ def explore(ctx):
     ctx.rule = ("mode A: full product (no bound) of documented (method, order) pairs x n_V x data law x evaluation grid x "
                 "(n_q, n_p) shape, keeping order < n_V, at the natural units; plus the full product of frequency scale x volume "
                 "unit x Gamma-acoustic residual spelling x shapes (incl. Gamma-only and n_p = 3) over "
-                + ("a reduced core (all method/order pairs, n_V = 8, three data laws, extended grid)" if ctx.quick else
+                + ("a reduced core (all method/order pairs, n_V = 8, power-law and generic data, extended grid)" if ctx.quick else
                    "the same complete core") +
+                "; plus 9 non-unit q-point weight spellings (increasing, x1e-9, integer, exact zeros at the first / last / middle / "
+                "first and last q-point, all zero, EMPTY list) crossed with the core and with the scale/shape part (result must be the "
+                "unit-weight result bit for bit)"
                 "; every case runs the real interpolate_modes on an analytic table with a distinct law per (q,m) (branches of one "
                 "q-point cross between sampled volumes) and checks exactness (data in the method's function space), the two integral "
                 "identities tying gamma and V dgamma/dV to the returned omega, zero Gamma-acoustic slots, per-slot law identity and "
                 "finiteness; every (n, iq) of the mode plot on the real Calculator._interpolate_modes wiring. "
-                "Mode B: every sequence of length 1.." + ("3" if ctx.quick else "4") + " over 7 call descriptions of interpolate_modes inside one "
+                "Mode B: every sequence of length 1.." + ("3" if ctx.quick else "4") + " over 8 call descriptions of interpolate_modes inside one "
                 "process (per-call oracle, inputs unchanged, earlier results unchanged after the caller overwrote them, no aliasing) and every "
                 "sequence of plot_modes(n, iq) calls of length 2.." + ("3" if ctx.quick else "4") + " on one plotter and one axes. "
                 "Non-trivial = the call(s) returned and at least one non-acoustic slot was compared (plot: at least one curve drawn)")
@@ -667,7 +706,7 @@ def explore(ctx):
     sdims = OrderedDict((k, list(v)) for k, v in dims.items())
     if ctx.quick:
         sdims["nv"] = [8]
-        sdims["data"] = [["power", 0], ["morse", 0], ["poly", 3]]
+        sdims["data"] = [["power", 0], ["morse", 0]]
         sdims["vkind"] = ["extended"]
     sdims["shape"] = sdims["shape"] + CORNER_SHAPES
     for k, v_ in SCALE_DIMS.items():
@@ -675,6 +714,23 @@ def explore(ctx):
     c2, r2 = ctx.run_lattice(MOD, "run_case", sdims, None, part="interp-scales-shapes",
                              extra={"part": "interp"}, canon=canon)
     cases, results = cases + c2, results + r2
+    # q-point weights (no role in the statement): crossed with the complete core in thorough, with a reduced core in quick
+    nonunit = [w for w in R.WEIGHT_KINDS if w != "unit"]
+    wd = OrderedDict((k, list(v)) for k, v in dims.items())
+    if ctx.quick:
+        wd["nv"], wd["data"], wd["vkind"] = [8], [["power", 0], ["morse", 0]], ["extended"]
+    wd["weights"] = nonunit
+    c3, r3 = ctx.run_lattice(MOD, "run_case", wd, None, part="interp-weights", extra={"part": "interp"}, canon=canon)
+    ws_ = OrderedDict((k, list(v)) for k, v in sdims.items())
+    ws_["nv"], ws_["vkind"] = [8], ["extended"]
+    if ctx.quick:
+        ws_["mo"] = [["lsq_poly", 3], ["spline", 3], ["pchip", 3]]
+        ws_["data"] = [["power", 0]]
+    else:
+        ws_["data"] = [["power", 0], ["morse", 0], ["poly", 3]]
+    ws_["weights"] = nonunit
+    c4, r4 = ctx.run_lattice(MOD, "run_case", ws_, None, part="interp-weights-scales-shapes", extra={"part": "interp"}, canon=canon)
+    cases, results = cases + c3 + c4, results + r3 + r4
     pc = plot_cases(thorough=not ctx.quick)
     ctx.run(MOD, "run_case", pc, part="plot")
 
@@ -703,6 +759,7 @@ def explore(ctx):
                               "shape": sdims["shape"], "plot_n": [0, 1, 2], "grid_points": R.N_GRID,
                               "wscale": SCALE_DIMS["wscale"], "vscale": SCALE_DIMS["vscale"], "acoustic_input": {k: list(R.ACOUSTIC_VARIANTS[k]) for k in SCALE_DIMS["acoustic"]},
                               "admissible_method_order_nV": sum(1 for m, o in MO for nv in dims["nv"] if o < nv),
+                              "weights": {k: R.weights_for(k, 3) for k in R.WEIGHT_KINDS}, "plot_weights": list(PLOT_WEIGHTS),
                               "history_ops": list(HIST_OPS), "history_max_len": 3 if ctx.quick else 4}
     ctx.notes["crossing_branch_pairs_per_shape"] = {f"{a}x{b}": R.crossings(R.laws_for("power", 0, a, b), vols8, R.v_ref(vols8))
                                                     for a, b in sdims["shape"]}
